@@ -319,7 +319,7 @@ class BaseSelector:
                     for feature_sample in feature_samples:
                         # fitting association on features
                         best_features += self._select_features(
-                            X, y, feature_sample, int(self.n_best // 2), dtype
+                            X, y, feature_sample, max(1, int(self.n_best // 2)), dtype
                         )
 
                 # splitting in chunks not requested
